@@ -49,6 +49,9 @@ inductive SendResult where
   | err
   deriving Repr, DecidableEq
 
+/-- the Set ID in the set header (first two bytes) -/
+def SetB.setId (s : SetB) : Nat := unbe (s.header.take 2)
+
 /-- dataRecSanityCheck -/
 def ExpState.sane (st : ExpState) (r : Rec) : Bool :=
   match st.template r.tid with
@@ -60,7 +63,7 @@ def ExpState.sendBuilt (st : ExpState) (time : Nat) (s : SetB) : ExpState × Sen
   match s.ty with
   | .undefined => (st, .err)
   | ty =>
-    if ty = .data ∧ !(s.recs.all st.sane) then (st, .err)
+    if ty = .data ∧ !(s.recs.all fun r => r.tid == s.setId && st.sane r) then (st, .err)
     else
       let s := s.updateLen
       let seq' := if ty = .data then (st.seq + s.recs.length) % 4294967296 else st.seq
